@@ -149,3 +149,56 @@ package memory
 //@     ghost sanErr error = nil
 //@     before call memory.sanitizeTuplesWriteDelete args recs, dels, wrs, o : assert recs == s.tuples[store] && dels == deletes && wrs == writes
 //@     after call memory.sanitizeTuplesWriteDelete returning a, b, e : sanitized = true ; sanErr = e
+
+// ------------------------------------------------------------------ C16 / C17: stores and models are kept per store id
+//@ func (*MemoryBackend).GetStore(s, ctx, storeID) (res, err)
+//@   property C16
+//@   option nosafety
+//@   modifies nothing
+//@   ensures @thisStore err == nil ==> res != nil && inDom(s.stores, storeID) && res == s.stores[storeID]
+//@   ensures @absent !inDom(s.stores, storeID) ==> err != nil && res == nil
+
+// "A deleted store is no longer returned": afterwards the id is absent, every other store is untouched
+//@ func (*MemoryBackend).DeleteStore(s, ctx, id) (err)
+//@   property C16
+//@   option nosafety
+//@   ensures @gone !inDom(s.stores, id)
+//@   ensures @othersUntouched forall k string :: k != id ==> (inDom(s.stores, k) <==> old(inDom(s.stores, k))) && s.stores[k] == old(s.stores[k])
+
+//@ func (*MemoryBackend).CreateStore(s, ctx, newStore) (res, err)
+//@   property C16
+//@   option nosafety
+//@   ensures @noOverwrite old(inDom(s.stores, newStore.GetId())) ==> err != nil && res == nil && s.stores[old(newStore.GetId())] == old(s.stores[newStore.GetId()])
+//@   ensures @created !old(inDom(s.stores, newStore.GetId())) ==> err == nil && res != nil && inDom(s.stores, old(newStore.GetId())) && res == s.stores[old(newStore.GetId())] && res.Id == old(newStore.GetId()) && res.Name == old(newStore.GetName())
+//@   ensures @othersUntouched forall k string :: k != old(newStore.GetId()) ==> (inDom(s.stores, k) <==> old(inDom(s.stores, k))) && s.stores[k] == old(s.stores[k])
+
+// a model is looked up in the map of exactly this store, under exactly this id
+//@ func findAuthorizationModelByID(id, configurations) (m, ok)
+//@   property C16 C17
+//@   option nosafety
+//@   modifies nothing
+//@   ensures @byID id != "" ==> (ok <==> inDom(configurations, id)) && (ok ==> m == configurations[id].model) && (!ok ==> m == nil)
+
+//@ func (*MemoryBackend).ReadAuthorizationModel(s, ctx, store, id) (res, err)
+//@   property C16 C17
+//@   option nosafety
+//@   modifies nothing
+//@   ensures @thisStoreThisID err == nil && id != "" ==> inDom(s.authorizationModels, store) && inDom(s.authorizationModels[store], id) && res == s.authorizationModels[store][id].model
+//@   ensures @unknownStore !inDom(s.authorizationModels, store) ==> err != nil && res == nil
+//@   monitor scoped
+//@     before call memory.findAuthorizationModelByID args i, tm : assert i == id && tm == s.authorizationModels[store]
+
+//@ func (*MemoryBackend).FindLatestAuthorizationModel(s, ctx, store) (res, err)
+//@   property C16 C17
+//@   option nosafety
+//@   modifies nothing
+//@   ensures @unknownStore !inDom(s.authorizationModels, store) ==> err != nil && res == nil
+//@   monitor scoped
+//@     before call memory.findAuthorizationModelByID args i, tm : assert i == "" && tm == s.authorizationModels[store]
+
+// the model is stored unchanged under (store, model id) and flagged latest; the model maps of other stores are the same objects as before
+//@ func (*MemoryBackend).WriteAuthorizationModel(s, ctx, store, model) (err)
+//@   property C16 C17
+//@   option nosafety
+//@   ensures @stored err == nil && inDom(s.authorizationModels, store) && inDom(s.authorizationModels[store], old(model.GetId())) && s.authorizationModels[store][old(model.GetId())].model == model && s.authorizationModels[store][old(model.GetId())].latest
+//@   ensures @otherStores forall k string :: k != store ==> (inDom(s.authorizationModels, k) <==> old(inDom(s.authorizationModels, k))) && s.authorizationModels[k] == old(s.authorizationModels[k])
